@@ -121,6 +121,56 @@ func (tc *TypeChecker) CheckType(value interface{}, expectedType Type) error {
 		}
 	}
 
+	// The documented collection and timestamp types have no runtime type of
+	// their own: a List or Set is an array, a Map an object, a timestamp an
+	// integer. Without these cases no non-null value satisfied Set[T], Map[K, V]
+	// or timestamp, and List[T] never looked at its elements.
+	if value != nil {
+		if named, ok := expectedType.(NamedType); ok && named.Name == "timestamp" {
+			switch v := value.(type) {
+			case int64:
+				return nil
+			case float64:
+				if v == math.Trunc(v) && !math.IsInf(v, 0) {
+					return nil
+				}
+			}
+			return fmt.Errorf("type mismatch: expected timestamp, got %s", tc.TypeToString(GetRuntimeType(value)))
+		}
+		if generic, ok := expectedType.(GenericType); ok {
+			if base, ok := generic.BaseType.(NamedType); ok {
+				switch base.Name {
+				case "List", "Set":
+					arr, isArray := value.([]interface{})
+					if !isArray {
+						return fmt.Errorf("type mismatch: expected %s, got %s", tc.TypeToString(expectedType), tc.TypeToString(GetRuntimeType(value)))
+					}
+					if len(generic.TypeArgs) == 1 {
+						for i, elem := range arr {
+							if err := tc.CheckType(elem, generic.TypeArgs[0]); err != nil {
+								return fmt.Errorf("element %d: %v", i, err)
+							}
+						}
+					}
+					return nil
+				case "Map":
+					obj, isObject := value.(map[string]interface{})
+					if !isObject {
+						return fmt.Errorf("type mismatch: expected %s, got %s", tc.TypeToString(expectedType), tc.TypeToString(GetRuntimeType(value)))
+					}
+					if len(generic.TypeArgs) == 2 {
+						for key, elem := range obj {
+							if err := tc.CheckType(elem, generic.TypeArgs[1]); err != nil {
+								return fmt.Errorf("key %s: %v", key, err)
+							}
+						}
+					}
+					return nil
+				}
+			}
+		}
+	}
+
 	// A null value has no runtime type to compare. Whether null is acceptable
 	// is a question of requiredness, which the caller enforces separately with
 	// "missing required field" - only `!` marks a field required. Rejecting
